@@ -12,7 +12,8 @@ LEVEL = "exploration"
 RULE = (
     "stateful (Hypothesis RuleBasedStateMachine): one generated call-only program with 0-4 setup sites (independent "
     "and chained, constant arguments, value stamped with the index of the operation that executed it) and ordinary "
-    "sites depending on some of them, sync or async flavour; rules = call, executor(T/X/R selection)(), setup(), "
+    "sites depending on some of them, sync or async flavour; rules = call, executor(T/X/R selection)(), create an "
+    "executor now and run it later (after other operations), setup(), "
     "setup(target_nodes=...), executor(sel).setup(), deepcopy (adds an independent instance); after every operation: "
     "entries of node functions == what the reference executes given the setup sites this instance has already "
     "computed, returned values == reference (hence every later execution sees the first stamp), per (instance, setup "
@@ -182,6 +183,19 @@ def make_machine(H: Harness) -> Any:
             sites = self.I.M.sites
             T = data.draw(st.lists(st.sampled_from(sites), min_size=1, max_size=3, unique=True))
             self.do({"op": "exec_setup", "inst": self._inst(data), "sel": {"T": T}})
+
+        @precondition(lambda self: self.I is not None and len(self.I.execs) < 4)
+        @rule(data=st.data())
+        def make_executor(self, data: Any) -> None:
+            # an executor created now and run later, possibly after setup() / other calls on the DAG
+            sel = data.draw(st.one_of(st.none(), sc.selection_strategy(self.case["prog"])))
+            self.do({"op": "mkexec", "inst": self._inst(data), "sel": sel})
+
+        @precondition(lambda self: self.I is not None and any(e["runs"] == 0 for e in self.I.execs))
+        @rule(data=st.data())
+        def run_stored_executor(self, data: Any) -> None:
+            fresh = [k for k, e in enumerate(self.I.execs) if e["runs"] == 0]
+            self.do({"op": "runexec", "e": data.draw(st.sampled_from(fresh)), "args": []})
 
         @precondition(lambda self: self.I is not None and len(self.I.insts) < 3)
         @rule(data=st.data())
